@@ -23,6 +23,8 @@ def replace_domain(args, name, dom):
 
 def check(prog, run):
     I = prog.I
+    _sc = prog.cls(CMD_MOD, "SCSICommand")
+    base_mbe = _sc.injected.get("MissingBlocksizeException") if hasattr(_sc, "injected") else None
     run.explanation = ("refusals are decided on the abstract interpretation of constructors, validators and facade methods with "
                        "the offending input fixed and everything else symbolic: every path must end in the specific exception, "
                        "before SCSICommand.__init__ has run (no partially initialised command) and with zero hand-overs to the "
@@ -59,6 +61,13 @@ def check(prog, run):
                 elif ec is None or ec.name != "MissingBlocksizeException":
                     run.violation("blocksize-refusal", c, "block size 0 raises %s, not MissingBlocksizeException" % con.path.raised.describe(),
                                   file, line, key)
+                elif base_mbe is not None and base_mbe not in ec.mro():
+                    owner = getattr(ec, "injected_into", None)
+                    run.violation("blocksize-refusal", c + " (exception class)",
+                                  "the refusal raises %s.MissingBlocksizeException, a class of the same name that is unrelated to "
+                                  "SCSICommand.MissingBlocksizeException (the metaclass gives every command class its own): `except "
+                                  "SCSICommand.MissingBlocksizeException`, which every other command's refusal satisfies, does not catch it"
+                                  % (owner.name if owner is not None else "?"), file, line, key)
                 elif inits:
                     run.violation("refusal-before-initialisation", c,
                                   "the refusal comes after SCSICommand.__init__ has run: a partially initialised command exists", file, line, key)
@@ -77,6 +86,13 @@ def check(prog, run):
                     if con.path.returned or ec is None or ec.name != "MissingBlocksizeException":
                         run.violation("blocksize-refusal", c, "ATA transfer in logical-sector units without block size is not refused (%s): %s"
                                       % (con.label(), "constructed" if con.path.returned else con.path.raised.describe()), file, line, key)
+                    elif base_mbe is not None and base_mbe not in ec.mro():
+                        owner = getattr(ec, "injected_into", None)
+                        run.violation("blocksize-refusal", c + " (exception class)",
+                                      "the refusal raises %s.MissingBlocksizeException, a class of the same name that is unrelated to "
+                                      "SCSICommand.MissingBlocksizeException (the metaclass gives every command class its own): `except "
+                                      "SCSICommand.MissingBlocksizeException`, which every other command's refusal satisfies, does not catch it"
+                                      % (owner.name if owner is not None else "?"), file, line, key)
                     elif inits:
                         run.violation("refusal-before-initialisation", c, "refusal after SCSICommand.__init__", file, line, key)
                     else:
